@@ -4,5 +4,5 @@ CONSTANTS
   MaxLen = 2
   UpdKinds = {"load"}
   Nests = {"flat", "seq", "blocks", "dict", "alias"}
-  MatchOpts <- Opts_quick
+  MatchOpts <- Opts_q3
 INVARIANT AllReplaced
